@@ -311,10 +311,11 @@ def inWksRdataBody : P (List UInt8) := do
   let startLine ← getLine
   let addr ← readField parseIpv4 .InvalidIpv4
   skipToNextField .ExpectedIpProto
-  let proto ←
+  let proto ← do
     if ← liftB (expectFieldCI "TCP".toUTF8.toList) then pure 6
-    else if ← liftB (expectFieldCI "UDP".toUTF8.toList) then pure 17
-    else readField parseU8 .InvalidInt
+    else do
+      if ← liftB (expectFieldCI "UDP".toUTF8.toList) then pure 17
+      else readField parseU8 .InvalidInt
   let ports ← (fun st => wksLoop startLine st [] 0)
   mkRdata (newInWks addr proto ports)
 
